@@ -61,6 +61,8 @@ const (
 //	              incomplete multiplexer frame) are put on the runtime hop when the plan is
 //	              armed, and both hops are closed as soon as the last byte of the next complete
 //	              runtime->plugin frame has been read
+//	"leave"       the plugin answers and leaves: both hops are closed StallMs ms (0 = at once)
+//	              after the next response has been passed on to the runtime completely
 //	"garbage"     replace the next response by forged bytes (Level "trunk": raw bytes with a
 //	              forged multiplexer header; "mux": a valid multiplexer frame for the plugin
 //	              service connection carrying Bytes; "ttrpc": valid multiplexer frame, forged
@@ -93,6 +95,7 @@ type Report struct {
 	FirstLen  [2]int // multiplexer payload length of the first frame seen per direction (-1: none)
 	Stream    uint32 // ttRPC stream id of the first request seen while armed
 	Swallowed int    // bytes of plugin traffic dropped after a replacement
+	Answered  bool   // leave: a complete response went to the runtime while armed
 }
 
 // Proxy is one plugin connection with fault injection.
@@ -107,7 +110,8 @@ type Proxy struct {
 	left     int
 	rep      Report
 	swallow  bool
-	closer   string // who ended the session first: "", "proxy", "runtime", "plugin"
+	p2r      msgTracker // follows everything passed on to the runtime
+	closer   string     // who ended the session first: "", "proxy", "runtime", "plugin"
 	closedAt time.Time
 	pumps    sync.WaitGroup
 	ready    chan struct{}
@@ -281,6 +285,11 @@ func (p *Proxy) forward(d int, dst net.Conn, b []byte) bool {
 	if p.plan != nil {
 		p.rep.Fwd[d] += len(b)
 	}
+	leave, leaveMs := false, 0
+	if d == P2R && p.p2r.feed(b) > 0 && p.plan != nil && p.plan.Kind == "leave" && !p.rep.Answered {
+		p.rep.Answered = true
+		leave, leaveMs = true, p.plan.StallMs
+	}
 	p.mu.Unlock()
 	if len(b) > 0 {
 		if _, err := dst.Write(b); err != nil {
@@ -289,6 +298,22 @@ func (p *Proxy) forward(d int, dst net.Conn, b []byte) bool {
 				return false
 			}
 		}
+	}
+	if leave {
+		if leaveMs <= 0 {
+			p.end("proxy")
+			return false
+		}
+		go func() {
+			p.mu.Lock()
+			quit := p.quit
+			p.mu.Unlock()
+			select {
+			case <-time.After(time.Duration(leaveMs) * time.Millisecond):
+			case <-quit:
+			}
+			p.end("proxy")
+		}()
 	}
 	if fire {
 		if stall != 0 {
